@@ -1,6 +1,6 @@
 (* C14 — the wire codec round-trips, so the main theorem holds for the extracted entry points. *)
 From Coq Require Import List ZArith Bool Lia.
-From Verif Require Import C14.Model C14.Spec C14.Rule C14.Codec C14.Proofs_Model C14.Proofs_Rule.
+From Verif Require Import C14.Model C14.View C14.Spec C14.Rule C14.Codec C14.Proofs_Model C14.Proofs_View C14.Proofs_Rule.
 Import ListNotations.
 Open Scope Z_scope.
 
@@ -39,10 +39,10 @@ Proof.
   rewrite flat_enc_length. cbn [length]. lia.
 Qed.
 
-Lemma enc_obs_sized g cs : well_sized (length cs) (enc_obs (run g cs)) = true.
+Lemma enc_obs_sized (o : obs) n : length (snd o) = n -> well_sized n (enc_obs o) = true.
 Proof.
-  unfold well_sized, enc_obs, run. cbn [fst snd].
-  rewrite app_length, enc_res_length, flat_enc_length, map_length.
+  intros <-. unfold well_sized, enc_obs.
+  rewrite app_length, enc_res_length, flat_enc_length.
   apply Nat.eqb_eq. lia.
 Qed.
 
@@ -66,22 +66,40 @@ Lemma wire_main_fresh inp :
 Proof.
   unfold prop_case, finding_sig. rewrite eq_listZ_refl. unfold run_case.
   pose proof (decode_same_but_ratio inp) as Hd.
-  destruct (decode inp) as [[g gw] cs]. destruct Hd as [Hbe Hcfs]. intro Hr.
+  destruct (decode inp) as [[g gw] cs0]. destruct Hd as [Hbe Hcfs]. intro Hr.
   assert (g = gw) by now apply cfg_eq. subst gw.
-  rewrite andb_true_r, enc_obs_sized, dec_enc_obs. cbn [negb andb].
-  destruct (only_d10 g cs) as [H|H]; [now left|right; now rewrite H].
+  destruct (decode_view inp) as [recon p]. cbv zeta.
+  rewrite andb_true_r, (enc_obs_sized _ _ (run_b_length recon g p)), dec_enc_obs. cbn [negb andb].
+  destruct (view_only_d10 recon g p) as [H|H]; [now left|right; now rewrite H].
 Qed.
 
 (* with every container recorded and the rule up to date the model passes *)
 Lemma wire_main_listed inp :
-  let '(g, gw, cs) := decode inp in
-  forallb listed cs = true -> ratio g = ratio gw -> prop_case inp (run_case inp) = 0.
+  let '(g, gw, _) := decode inp in
+  let '(recon, p) := decode_view inp in
+  complete recon p = true -> ratio g = ratio gw -> prop_case inp (run_case inp) = 0.
 Proof.
   unfold prop_case, run_case.
   pose proof (decode_same_but_ratio inp) as Hd.
-  destruct (decode inp) as [[g gw] cs]. destruct Hd as [Hbe Hcfs]. intros H Hr.
-  assert (g = gw) by now apply cfg_eq. subst gw.
-  rewrite enc_obs_sized, dec_enc_obs. cbn [negb]. now apply main.
+  destruct (decode inp) as [[g gw] cs0]. destruct Hd as [Hbe Hcfs].
+  destruct (decode_view inp) as [recon p]. intros H Hr.
+  assert (g = gw) by now apply cfg_eq. subst gw. cbv zeta.
+  rewrite (enc_obs_sized _ _ (run_b_length recon g p)), dec_enc_obs. cbn [negb]. now apply view_main.
+Qed.
+
+(* an input without the trailing amode (the format before the stored-pod widening) or with amode
+   0 / 3 denotes a pod admitted by the webhook: every builder runs Model.run on the spec *)
+Lemma decode_view_synced mode q c prev k n t amode f :
+  amode <> 1 -> amode <> 2 ->
+  skipn (8 * Z.to_nat n) t = [] \/ skipn (8 * Z.to_nat n) t = amode :: f ->
+  let inp := mode :: q :: c :: prev :: k :: n :: t in
+  let cs := decode_ctrs (Z.to_nat n) t in
+  handed (fst (decode_view inp)) (snd (decode_view inp)) = cs
+  /\ forall g, run_b (fst (decode_view inp)) g (snd (decode_view inp)) = run g cs.
+Proof.
+  intros H1 H2 Hs. cbv zeta. unfold decode_view.
+  destruct Hs as [-> | ->]; cbn [fst snd]; rewrite stored_synced by (try assumption; discriminate);
+    (split; [apply handed_synced|intro g; apply view_synced]).
 Qed.
 
 (* ---------- the rule ---------- *)
